@@ -21,6 +21,7 @@ import ast
 
 from ..core import AnalysisError, norm, short
 from .. import effects
+from ..effects import Flow, slot_key
 from .common import (cfg_of, fkey, conds, has_cond, stmts_of, walk_body, call_tail, call_name, returns_of, stmt_of)
 from .c06 import routes_writers
 
@@ -105,43 +106,63 @@ def run(rep):
     effs = effects.effects_in(crf.node)
     rep.check('R11.a', fkey(crf), not effs, 'cast_to_route_factory has no heap effect' if not effs else
               'cast_to_route_factory writes %s' % [short(e.node) for e in effs], app, crf.node)
-    # containers kept by the bound route are copies
-    kept = {}
-    for s in stmts_of(bi.node):
-        if isinstance(s, ast.Assign) and isinstance(s.targets[0], ast.Attribute) and norm(s.targets[0].value) == 'self':
-            kept[s.targets[0].attr] = s
+    # containers kept by the bound route are copies: every value that can flow into the attribute (through named
+    # temporaries, either arm of a conditional) is a container allocated here
+    def fresh_container(fl, fi, leaf):
+        v = leaf.value
+        if leaf.opaque:
+            return False
+        if isinstance(v, ast.Call) and call_name(v) in COPY_CALLS:
+            return True
+        return isinstance(v, (ast.BinOp, ast.Dict, ast.List, ast.Set, ast.ListComp, ast.DictComp, ast.SetComp))
+
+    def rooted_in(fl, leaf, names):
+        """the value is (part of) an object reachable from one of ``names``: attribute / item / getattr chain."""
+        v = fl.resolve(leaf.value, leaf.stmt) if isinstance(leaf.stmt, ast.AST) else leaf.value
+        seen_attr = False
+        while True:
+            if isinstance(v, (ast.Attribute, ast.Subscript)):
+                v, seen_attr = v.value, True
+            elif isinstance(v, ast.Call) and call_name(v) == 'getattr' and v.args:
+                v, seen_attr = v.args[0], True
+            else:
+                break
+        return seen_attr and isinstance(v, ast.Name) and v.id in names
+
+    def copies(fi, attr, who, mod_):
+        fl = Flow(fi)
+        lv = fl.leaves(ast.parse('self.%s' % attr, mode='eval').body, 'exit')
+        stores = fl.defs.get('self.%s' % attr, [])
+        if not stores:
+            lv = []
+        ok = bool(lv) and all(fresh_container(fl, fi, l) for l in lv)
+        bad = [l for l in lv if not fresh_container(fl, fi, l)]
+        rep.check('R11.a', fkey(fi, 'self.%s is a copy' % attr), ok, 'self.%s = %s (fresh container)' % (attr, ' | '.join(short(l.value, 50) for l in lv)) if ok else
+                  '%s: self.%s aliases a container of %s: %s' % (fi.qualname, attr, who, [short(l.value) for l in bad] or 'never assigned'), mod_,
+                  (bad[0].stmt if bad and isinstance(bad[0].stmt, ast.AST) else None) or (stores[-1].stmt if stores else fi.node))
+
+    bfl = Flow(bi)
+    ro = set(bi.params()[1:3])
     # attributes that stay aliases of the original's objects must not be mutated here
-    ro = set(bi.params()[1:3]) | {'unbound_route'}
-    for attr, s in sorted(kept.items()):
-        v = s.value
-        base = v
-        while isinstance(base, (ast.Attribute, ast.Subscript)):
-            base = base.value
-        if isinstance(v, (ast.Attribute,)) and isinstance(base, ast.Name) and base.id in ro:
-            muts = [e for e in effects.effects_in(bi.node) if (e.chain or [])[:2] == ['self', attr] and
-                    (e.kind == 'mutcall' or len(e.chain) > 2)]
-            rep.check('R11.a', fkey(bi, 'alias self.%s' % attr), not muts,
-                      'self.%s aliases %s and is not mutated while binding' % (attr, norm(v)) if not muts else
-                      'self.%s is an alias of %s and is mutated during binding (%s): the original route/application changes' %
-                      (attr, norm(v), [short(e.node) for e in muts]), route, muts[0].node if muts else s)
+    for slot in sorted(k for k in bfl.defs if k.startswith('self.')):
+        attr = slot[5:]
+        lv = [l for d in bfl.defs[slot] if d.kind == 'assign' and d.idx is None for l in bfl.leaves(d.value, d.stmt)]
+        al = [l for l in lv if not l.opaque and rooted_in(bfl, l, ro)]
+        if not al:
+            continue
+        muts = [e for e in effects.effects_in(bi.node) if (e.chain or [])[:2] == ['self', attr] and
+                (e.kind == 'mutcall' or len(e.chain) > 2 or isinstance(e.node, ast.AugAssign))]
+        rep.check('R11.a', fkey(bi, 'alias self.%s' % attr), not muts,
+                  'self.%s aliases %s and is not mutated while binding' % (attr, norm(al[0].value)) if not muts else
+                  'self.%s is an alias of %s and is mutated during binding (%s): the original route/application changes' %
+                  (attr, norm(al[0].value), [short(e.node) for e in muts]), route, muts[0].node if muts else al[0].stmt)
     for attr in ('resources', 'middlewares', 'bound_apps'):
-        s = kept.get(attr)
-        v = s.value if s else None
-        ok = s is not None and ((isinstance(v, ast.Call) and call_name(v) in COPY_CALLS) or isinstance(v, ast.BinOp))
-        rep.check('R11.a', fkey(bi, 'self.%s is a copy' % attr), ok, 'self.%s = %s (fresh container)' % (attr, short(v, 50)) if ok else
-                  'self.%s aliases a container of the route/application being bound: %s' % (attr, short(v)), route, s or bi.node)
-    for mod_, q, attr in ((route, 'Route.__init__', 'middlewares'), (route, 'Route.__init__', 'resources')):
-        fi = mod_.func(q)
-        s = [x for x in stmts_of(fi.node) if isinstance(x, ast.Assign) and norm(x.targets[0]) == 'self.%s' % attr]
-        ok = len(s) == 1 and isinstance(s[0].value, ast.Call) and call_name(s[0].value) in COPY_CALLS
-        rep.check('R11.a', fkey(fi, 'self.%s is a copy' % attr), ok, 'Route copies the caller\'s %s' % attr if ok else
-                  'Route keeps the caller\'s %s container by reference' % attr, mod_, s[0] if s else fi.node)
+        copies(bi, attr, 'the route/application being bound', route)
+    for attr in ('middlewares', 'resources'):
+        copies(route.func('Route.__init__'), attr, 'the caller', route)
     ai = app.func('Application.__init__')
     for attr in ('resources', 'middlewares'):
-        s = [x for x in stmts_of(ai.node) if isinstance(x, ast.Assign) and norm(x.targets[0]) == 'self.%s' % attr]
-        ok = len(s) == 1 and isinstance(s[0].value, ast.Call) and call_name(s[0].value) in COPY_CALLS
-        rep.check('R11.a', fkey(ai, 'self.%s is a copy' % attr), ok, 'Application copies the caller\'s %s' % attr if ok else
-                  'Application keeps the caller\'s %s by reference' % attr, app, s[0] if s else ai.node)
+        copies(ai, attr, 'the caller', app)
     # aliased mutable attributes are never mutated after construction
     allowed_mut = {('clastic.route', 'Route.__init__'), ('clastic.route', 'BoundRoute.__init__'),
                    ('clastic.application', 'Application.__init__')}
@@ -166,10 +187,16 @@ def run(rep):
     # ---- R11.b -----------------------------------------------------------
     ad = app.func('Application.add')
     cfg = cfg_of(ad)
+    afl = Flow(ad)
     ins = [stmt_of(app, c) for c in walk_body(ad.node) if isinstance(c, ast.Call) and norm(c.func).startswith('self.routes.')
            and call_tail(c) in effects.MUTATORS]
-    failing = [stmt_of(app, c) for c in walk_body(ad.node) if isinstance(c, ast.Call) and
-               (call_name(c) == 'cast_to_route_factory' or call_tail(c) in ('bind', 'bind_all'))]
+
+    def can_fail_at_bind(c):
+        if call_name(c) == 'cast_to_route_factory' or call_tail(c) in ('bind', 'bind_all'):
+            return True
+        t = afl.text(c.func, stmt_of(app, c))      # bind_all = getattr(rf, 'bind_all', None) ... bind_all(self, **kw)
+        return t.endswith('.bind') or t.endswith('.bind_all') or "'bind_all'" in t or "'bind'" in t
+    failing = [stmt_of(app, c) for c in walk_body(ad.node) if isinstance(c, ast.Call) and can_fail_at_bind(c)]
     if not ins or len(failing) < 2:
         raise AnalysisError('Application.add: insert / bind calls not found')
     for s in failing:
@@ -189,12 +216,27 @@ def run(rep):
                   'all re-bound routes exist before bind_all returns (no generator / lazy iterator)' if not lazy and not gens and rets_ else
                   'bind_all is lazy (generator / iterator): routes are bound one by one while add() is already inserting, so a failing '
                   'k-th route leaves routes 1..k-1 in the table', app, (lazy or gens or [bf.node])[0])
-    srcs = [s for s in stmts_of(ad.node) if isinstance(s, ast.Assign) and any(isinstance(l, ast.For) and norm(l.iter) == norm(s.targets[0]) and
-                                                                              any(i in l.body for i in ins) for l in stmts_of(ad.node))]
-    ok = bool(srcs) and all((isinstance(s.value, ast.Call) and call_tail(s.value) == 'bind_all') or isinstance(s.value, ast.List) or
-                            (isinstance(s.value, ast.Call) and call_name(s.value) == 'list') for s in srcs)
+    # the loop that inserts walks a finished list: every value that can flow into its iterable is the result of
+    # bind_all(...), a list display or list(...) -- possibly paired with positions by enumerate()
+    loops = [l for l in stmts_of(ad.node) if isinstance(l, ast.For) and any(i in stmts_of(l) for i in ins)]
+    srcs = []
+    ok = bool(loops)
+    for l in loops:
+        it = l.iter
+        if isinstance(it, ast.Call) and call_name(it) == 'enumerate' and it.args and not any(k.arg is None for k in it.keywords):
+            it = it.args[0]
+        for lf in afl.leaves(it, l):
+            v = lf.value
+            srcs.append(lf)
+            fin = not lf.opaque and (isinstance(v, ast.List) or (isinstance(v, ast.Call) and (
+                call_name(v) == 'list' or afl.text(v.func, lf.stmt if isinstance(lf.stmt, ast.AST) else l).endswith('.bind_all') or
+                afl.text(v.func, lf.stmt if isinstance(lf.stmt, ast.AST) else l).startswith("getattr(") and
+                "'bind_all'" in afl.text(v.func, lf.stmt if isinstance(lf.stmt, ast.AST) else l))))
+            ok = ok and fin
+    ok = ok and bool(srcs)
     rep.check('R11.b', fkey(ad, 'iterates a finished list'), ok, 'the insertion loop walks an already complete list of bound routes' if ok else
-              'the insertion loop does not iterate a complete list of bound routes', app, srcs[0] if srcs else ad.node)
+              'the insertion loop does not iterate a complete list of bound routes: %s' % [short(lf.value, 50) for lf in srcs], app,
+              (srcs[0].stmt if srcs and isinstance(srcs[0].stmt, ast.AST) else None) or ad.node)
     after = cfg.reach(cfg.nodes_of_all(ins), normal_only=True)
     bad = []
     for n in after:
@@ -292,15 +334,51 @@ def run(rep):
         ok = len(ks) == 1 and len(hs) == 1 and norm(hs[0].targets[0]) in norm(ks[0].value)
     rep.check('R11.d', fkey(cc, 'linecache key'), ok, 'the only process-wide cache entry is keyed by a hash of the generated text' if ok else
               'linecache.cache key does not derive from a content hash of the generated code', sinter, cc.node)
+    # the request-id counter: advanced by _dispatch_wsgi, directly or through private helpers that nothing else
+    # refers to (helpers the front-end dissolved into _dispatch_wsgi are left behind unreferenced)
+    main = 'clastic.application::Application._dispatch_wsgi'
     adv = []
     for m in repo.all_internal_modules():
         for fi in m.functions.values():
             for c in walk_body(fi.node):
                 if isinstance(c, ast.Call) and call_name(c) == 'next' and c.args and norm(c.args[0]) == '_REQ_ID_ITER':
-                    adv.append(fi.key)
-    ok = adv == ['clastic.application::Application._dispatch_wsgi']
+                    if fi not in adv:
+                        adv.append(fi)
+
+    def referrers(fi):
+        """keys of the functions (or '<module>') holding a load of the function's name, anywhere in the package."""
+        out = []
+        for m in repo.all_internal_modules():
+            for n in ast.walk(m.tree):
+                if (isinstance(n, ast.Name) and n.id == fi.name and isinstance(n.ctx, ast.Load)) or \
+                        (isinstance(n, ast.Attribute) and n.attr == fi.name and isinstance(n.ctx, ast.Load)) or \
+                        (isinstance(n, ast.Constant) and n.value == fi.name):
+                    keys = []
+                    cur = m.enclosing_function(n)
+                    while cur is not None:
+                        f2 = m.func_of_node(cur)
+                        if f2 is not None:
+                            keys.append(f2.key)
+                        cur = m.enclosing_function(cur)
+                    out.append(keys or ['%s::<module>' % m.name])
+        return out
+    accepted = {main}
+    used_from_main = False
+    changed = True
+    while changed:
+        changed = False
+        for fi in adv:
+            if fi.key in accepted or not fi.name.startswith('_') or fi.name.startswith('__') or fi.mod is not app:
+                continue
+            refs = referrers(fi)
+            if all(any(k in accepted for k in keys) for keys in refs):
+                accepted.add(fi.key)
+                changed = True
+    keys = [fi.key for fi in adv]
+    ok = bool(adv) and all(k in accepted for k in keys) and \
+        (main in keys or any(main in ks for fi in adv if fi.key != main for ks in referrers(fi)))
     rep.check('R11.d', 'clastic::_REQ_ID_ITER advanced', ok, 'the request-id counter is advanced in _dispatch_wsgi only' if ok else
-              'the request-id counter is advanced at %s' % adv, app)
+              'the request-id counter is advanced at %s' % keys, app)
     dp = repo.mod('clastic.meta').func('MetaApplication.__init__')
     s = [x for x in stmts_of(dp.node) if isinstance(x, ast.Assign) and norm(x.targets[0]) == 'self.peripherals']
     ok = len(s) == 1 and isinstance(s[0].value, ast.Call) and call_name(s[0].value) == 'list'
